@@ -1,13 +1,17 @@
 """C05 -- inter-packet response timing matches the selected bus speed."""
 from ..ir import E, AnalysisError
 from .. import q
+from ..num import Stepper, NoEval
 
 TITLE = 'inter-packet timing per speed'
-FLOOR = 12
+FLOOR = 8            # 3 fan-out + 3 semantic (one per speed) + 3 wiring; the structural comparator obligations come on top when they apply
 DECIDES = ('(a) in USBInterpacketTimer each speed arm (HIGH / FULL / otherwise=LOW) compares the gap counter with the '
            'cycle counts documented for that speed -- HS (1, 24, 92), FS@60MHz (10, 32, 80), FS@12MHz (2, 7, 16), '
            'LS (80, 260, 640) -- after folding the class tables and __init__ bindings; (b) the counter can '
-           'represent every compared value, is cleared by the OR of all start strobes and saturates; (c) the three '
+           'represent every compared value; the extracted timer composed with a reference monitor (cycles since the last '
+           'restart) is explored exhaustively under both values of the start strobe in every cycle: in every reachable state '
+           'the three strobes are exactly "restart was K cycles ago" for the documented K of the selected speed -- whatever '
+           'the start pattern, formulation independent; (c) the three '
            'strobes fan out to every interface; (d) USBDevice and USBTokenDetector drive the timer speed input '
            'from their speed signal. ')
 NOT_DECIDED = 'cycle-exact latency of the consumers of the strobes.'
@@ -34,19 +38,8 @@ def arm_of(a):
     return None
 
 
-def check_config(ctx, clock, fs_only):
-    tag = '%dMHz%s' % (clock / 1e6, ',fs_only' if fs_only else '')
-    ir = ctx.ir('USBInterpacketTimer', 'usb2.packet', domain_clock=clock, fs_only=fs_only)
-    elem = 'self._interfaces[*]'
-    outs = {}
-    for role, port in (('min', 'tx_allowed'), ('max', 'tx_timeout'), ('rx', 'rx_timeout')):
-        ds = ir.drivers('%s.%s' % (elem, port), exact=True)
-        ctx.need(len(ds) == 1 and isinstance(ds[0].rhs, E) and ds[0].rhs.op == 'sig' and not ds[0].guard,
-                 'USBInterpacketTimer drives interface.%s from one strobe' % port)
-        outs[role] = ds[0].rhs.args[0].name
-        ctx.ob('C05.fanout', 'USBInterpacketTimer.%s[%s]' % (port, tag), True, ds[0].loc,
-               'interface.%s <= %s for every interface' % (port, outs[role]))
-    spec = SPEC[clock]
+def _comparators(ctx, ir, outs, spec, fs_only, tag):
+    """Structural obligations on the comparator constants of each speed arm; returns (counter name, constants)."""
     counter = None
     compared = []
     for idx, role in enumerate(('min', 'max', 'rx')):
@@ -78,33 +71,93 @@ def check_config(ctx, clock, fs_only):
             extra = seen_arms - {'FULL'}
             ctx.ob('C05.fs-only', 'USBInterpacketTimer.%s[%s]' % (role, tag), not extra, None,
                    'fs_only configuration drives %s strobe in arms %s' % (role, sorted(extra)))
-    ctx.need(counter is not None, 'gap counter of USBInterpacketTimer')
-    si = ir.signals.get(counter)
-    ctx.need(si is not None and si.rng is not None, 'declared range of the gap counter')
-    hi = si.rng[1]
-    mx = max(compared)
-    ctx.ob('C05.counter-range', 'USBInterpacketTimer.counter[%s]' % tag, hi > mx + 1 - 1 and hi >= mx + 1, si.loc,
-           'counter range(0,%s) must cover the largest compared value %d' % (hi, mx))
-    # counter update: cleared under the start strobes, else saturating increment
-    ds = ir.drivers(counter, exact=True)
-    clr = [a for a in ds if q.is_zero(a.rhs)]
-    inc = [a for a in ds if isinstance(a.rhs, E) and a.rhs.op == '+']
+    return counter, compared
+
+
+def check_config(ctx, clock, fs_only):
+    tag = '%dMHz%s' % (clock / 1e6, ',fs_only' if fs_only else '')
+    ir = ctx.ir('USBInterpacketTimer', 'usb2.packet', domain_clock=clock, fs_only=fs_only)
+    elem = 'self._interfaces[*]'
+    spec = SPEC[clock]
+    for port in ('tx_allowed', 'tx_timeout', 'rx_timeout'):
+        ds = ir.drivers('%s.%s' % (elem, port), exact=True)
+        ctx.need(ds, 'USBInterpacketTimer drives interface.%s' % port)
+        ctx.ob('C05.fanout', 'USBInterpacketTimer.%s[%s]' % (port, tag), len(ds) == 1 and not ds[0].guard, ds[0].loc,
+               'interface.%s has one unconditional driver, for every interface: %s' % (port, [q.fmt(d) for d in ds]))
+    # --- structural reading of the comparators (precise diagnostics).  It applies when each interface strobe is a plain
+    # combinational copy of one local comparator signal, as in the tree; a differently organised timer (registered outputs,
+    # a preloaded counter, ...) is judged by the semantic obligation below alone.
+    outs, plain = {}, True
+    for role, port in (('min', 'tx_allowed'), ('max', 'tx_timeout'), ('rx', 'rx_timeout')):
+        ds = ir.drivers('%s.%s' % (elem, port), exact=True)
+        if len(ds) == 1 and ds[0].domain == 'comb' and isinstance(ds[0].rhs, E) and ds[0].rhs.op == 'sig' and not ds[0].guard:
+            outs[role] = ds[0].rhs.args[0].name
+        else:
+            plain = False
+    counter, compared, si = None, [], None
+    # ... and when every comparator sits in exactly one speed arm (If / Elif / Else over self.speed); a baseline-plus-override
+    # organisation is, again, judged semantically
+    if plain:
+        for role in outs:
+            for a in ir.drivers(outs[role], exact=True):
+                if arm_of(a) is None or q.const_eq(a.rhs) is None:
+                    plain = False
+    if plain:
+        counter, compared = _comparators(ctx, ir, outs, spec, fs_only, tag)
+        si = ir.signals.get(counter) if counter else None
+    else:
+        ctx.note('C05[%s]: the strobes are not plain copies of per-speed-arm comparators; the comparator constants are decided by '
+                 'the semantic obligation only' % tag)
+    if si is not None and si.rng is not None and compared:
+        hi, mx = si.rng[1], max(compared)
+        ctx.ob('C05.counter-range', 'USBInterpacketTimer.counter[%s]' % tag, hi >= mx + 1, si.loc,
+               'counter range(0,%s) must cover the largest compared value %d' % (hi, mx))
+    loc0 = si.loc if si is not None else ir.drivers('%s.tx_allowed' % elem, exact=True)[0].loc
+    # counter update and strobes, decided semantically: the extracted one-cycle relation of the timer is composed with a
+    # reference monitor ("cycles since the counter was last restarted", saturating) and ALL reachable product states are
+    # explored under both values of the start strobe in every cycle -- no stimulus is chosen.  In every reachable state the
+    # three interface strobes must be exactly "restart was K cycles ago" for the documented K of the selected speed.  This
+    # is independent of how the counter is written down (clear + saturating increment, preload with registered outputs, ...).
     start = '%s.start' % elem
-    ok_clr = len(clr) == 1 and q.pos_atoms(clr[0]) == {start} and not q.neg_atoms(clr[0])
-    ctx.ob('C05.counter-clear', 'USBInterpacketTimer.counter.clear[%s]' % tag, ok_clr, clr[0].loc if clr else None,
-           'counter must be cleared exactly under the OR of the interfaces\' start strobes: %s' % [q.fmt(a) for a in clr])
-    ok_inc = len(inc) == 1 and (start, False) in q.atoms(inc[0]) and len(ds) == 2
-    sat = None
-    if inc:
-        for l in inc[0].guard:
-            # `counter < K` (also written ~(counter >= K), counter <= K-1): the literal is (counter >= K) negated
-            if isinstance(l.e, E) and ((l.e.op == '<' and l.pos) or (l.e.op == '>=' and not l.pos)) and \
-                    l.e.args[0].canon() == counter and l.e.args[1].op == 'const':
-                sat = l.e.args[1].val
-    ctx.ob('C05.counter-saturate', 'USBInterpacketTimer.counter.inc[%s]' % tag,
-           ok_inc and sat is not None and mx < sat + 1 <= hi - 1 + 1 and sat < hi, inc[0].loc if inc else None,
-           'counter must count (when not cleared) while below a bound above every compared value; bound=%r max=%d '
-           'range hi=%s' % (sat, mx, hi))
+    ports = {'min': '%s.tx_allowed' % elem, 'max': '%s.tx_timeout' % elem, 'rx': '%s.rx_timeout' % elem}
+    try:
+        st = Stepper(ir)
+    except AnalysisError as ex:
+        ctx.need(False, 'one-cycle semantics of USBInterpacketTimer (%s)' % ex)
+    for arm, want in sorted(spec.items()):
+        if fs_only and arm != 'FULL':
+            continue
+        M = max(want) + 1
+        regs0 = tuple(st.inits.get(r, 0) for r in st.regs)
+        # the monitor starts as None: before the first start strobe nothing is measured (what the strobes do between reset
+        # and the first start is not part of the property)
+        seen, work, bad, n_eval = {(regs0, None)}, [(regs0, None)], None, 0
+        while work and bad is None:
+            regs, since = work.pop()
+            for go in (0, 1):
+                env = dict(zip(st.regs, regs))
+                env.update({start: go, 'self.speed': SPEED[arm]})
+                try:
+                    cur, nxt = st.step(env)
+                except NoEval as ex:
+                    ctx.need(False, 'USBInterpacketTimer evaluates under start/speed alone (%s)' % ex)
+                n_eval += 1
+                for i, role in enumerate(('min', 'max', 'rx')):
+                    if since is None:
+                        break
+                    exp = int(since == want[i])
+                    if cur.get(ports[role], 0) != exp and bad is None:
+                        bad = '%s strobe is %d, expected %d, %d cycle(s) after the most recent restart of the gap counter ' \
+                              '(registers %s, start=%d)' % (role, cur.get(ports[role], 0), exp, since, dict(zip(st.regs, regs)), go)
+                nx = (tuple(nxt[r] for r in st.regs), 0 if go else (None if since is None else min(since + 1, M)))
+                if nx not in seen:
+                    seen.add(nx)
+                    work.append(nx)
+        ctx.need(bad is not None or len(seen) > max(want), 'product exploration of USBInterpacketTimer reached the strobe counts')
+        ctx.ob('C05.strobe-exact', 'USBInterpacketTimer.%s.strobes[%s]' % (arm, tag), bad is None, loc0,
+               'at speed %s each strobe must be raised exactly %s cycles after the cycle in which the gap counter was last '
+               'restarted by a start strobe (tx_allowed / tx_timeout / rx_timeout), for every pattern of start strobes; '
+               '%d product states, %d evaluations; %s' % (arm, want, len(seen), n_eval, bad or 'holds'))
 
 
 def run(ctx):
